@@ -328,7 +328,13 @@ func genStdout(rt *rapid.T, kind, reply, name string) string {
 		return mustJSON(m)
 	case kind == "wrongname":
 		m := objectOf(reply)
-		other := rp.Pick(rt, "otherName", name+"x", "x"+name, name+"-2", "other", name+name)
+		// unrelated names, and names that only relate to the file name (equal is equal: byte for byte)
+		other := rp.Pick(rt, "otherName", name+"x", "x"+name, name+"-2", "other", name+name,
+			strings.ToUpper(name), strings.ToUpper(name[:1])+name[1:], name+" ", " "+name, name+"\n", "notation-"+name, name+".exe",
+			strings.NewReplacer("k", "\u212a", "s", "\u017f").Replace(name))
+		if other == name {
+			other = strings.ToUpper(name)
+		}
 		m["name"] = json.RawMessage(mustJSON(other))
 		return mustJSON(m)
 	case kind == "badversion":
@@ -961,6 +967,10 @@ func judgeOutcome(c *Case, r *result) (string, string) {
 		// the process never wrote a reply and was killed at the deadline / cancellation
 		if r.err == nil {
 			return "C17:success-only-if:plugin-killed-at-deadline", fmt.Sprintf("the plugin sleeps %d ms and the context ended after %d ms, yet %s succeeded", c.SleepMs, c.DeadlineMs+c.CancelMs, c.Cmd)
+		}
+		if c.Stderr == "" && c.PadStderr == 0 && et == "untyped" {
+			// a process that the host had to kill is a failing process, and this one printed nothing
+			return "C17:error-mapping:killed-silent-plugin-not-typed", fmt.Sprintf("the plugin printed nothing on stderr and was killed when the context ended: error %T %q is not a typed executable/malformed-plugin error", r.err, errText(r.err))
 		}
 		return "", ""
 	case c.failing():
